@@ -6,7 +6,7 @@ import vlib
 
 HARNESS = ["aml/c11_harness_test.go", "aml/c11_random_test.go"]
 PKG = "device/acpi/aml"
-TRIGGERS = ["D1", "D1b", "D2", "D2c", "D3", "D5", "D7", "D8", "D9", "D10", "D11", "D12", "D13", "D14", "D15"]           # ids that have a trigger predicate in AmlNs.tla
+TRIGGERS = ["D1", "D1b", "D2", "D2c", "D3", "D5", "D7", "D8", "D9", "D10", "D11", "D12", "D13", "D14", "D15", "D16"]           # ids that have a trigger predicate in AmlNs.tla
 # findings without a trigger of their own: their constructs are excluded through these
 VIA = {"D4": ["D3"], "D6": ["D5", "D7"]}
 ASSUME = [
@@ -149,8 +149,14 @@ def run_go(ctx, g_in, g_out, t_out, n_random, r_in, r_out, excl, timeout=1500):
 
 def judge_trace(ctx, path, name, excl, timeout=1500, parallel=None):
     """leg V in strict mode; returns the list of violations (dicts); a generator slip is Broken"""
+    covered = os.path.join(ctx.work, "covered_%s.ndjson" % name.replace("+", "_"))
     acc, nev, mism = ctx.validate_traces("AmlNsTrace", "AmlNsTraceStrict", path, ("aml",), name=name, timeout=timeout,
-                                         env=monitor_env(excl), is_reset=lambda e: True, parallel=parallel)
+                                         env=dict(monitor_env(excl), COVERED=covered), is_reset=lambda e: True, parallel=parallel)
+    if os.path.exists(covered):     # programs the real parser rejected and that the design-model predicate of an open finding (D16) covers
+        with open(covered) as f:
+            n = sum(1 for l in f if l.strip())
+        ctx.cov["legs"][name]["rejected_programs_covered_by_open_finding_D16"] = n
+        ctx.log("%d rejected program(s) covered by the design-model predicate of open finding D16" % n)
     out = []
     for m in mism:
         mm = m["mismatch"]
@@ -263,7 +269,7 @@ def run(ctx):
     t_out = os.path.join(ctx.work, "t_trace.ndjson")
     r_in, r_out = os.path.join(ctx.work, "r_in.ndjson"), os.path.join(ctx.work, "r_trace.ndjson")
     write_progs(r_in, [e["reproducer"]["toks"] for e in findings])
-    n_random = 60 if q else 1000
+    n_random = 60 if q else 800
     run_go(ctx, g_in, g_out, t_out, n_random, r_in, r_out, excl)
 
     # ---- leg V: one pool of monitor processes judges both traces (random programs carry ids > 10^6)
